@@ -405,6 +405,12 @@ class SqlImpl(TableImpl):
                     if isinstance(node, Col) and node._uuid in sqa_expr and node._uuid not in needed_cols:
                         needed_cols[node._uuid] = 1
 
+            # ... and the columns the table is grouped by (a later `summarize` or window
+            # function uses them without naming them).
+            for col in query.partition_by:
+                if col._uuid in sqa_expr and col._uuid not in needed_cols:
+                    needed_cols[col._uuid] = 1
+
             # We only want to select those columns that (1) the user uses in some
             # expression later or (2) are present in the final selection.
 
